@@ -208,13 +208,17 @@ func str(m map[string]interface{}, n string) string {
 }
 
 // FlowProj projects one aggregated record (through GetRecords) plus its flags.
-func (p *P) FlowProj(name string, f intermediate.VerifFlow) vt.Ev {
+func (p *P) FlowProj(name string, f intermediate.VerifFlow) Ev {
 	fk := Pool[name].FlowKey()
 	recs := p.A.GetRecords(&fk)
 	if len(recs) != 1 {
 		return vt.Ev{"k": name, "nrecs": len(recs)}
 	}
-	m := recs[0]
+	return withKV(p.FlowProjOf(name, recs[0], f.Ready, f.Filled), "retries", f.Retries)
+}
+
+// FlowProjOf projects an element map (no API calls: usable while the process mutex is held).
+func (p *P) FlowProjOf(name string, m map[string]interface{}, ready, filled bool) Ev {
 	vec := func(names []string) []int {
 		out := make([]int, len(names))
 		for i, n := range names {
@@ -222,12 +226,17 @@ func (p *P) FlowProj(name string, f intermediate.VerifFlow) vt.Ev {
 		}
 		return out
 	}
-	return vt.Ev{"k": name, "sp": str(m, "sourcePodName"), "dp": str(m, "destinationPodName"), "sns": str(m, "sourcePodNamespace"), "dns": str(m, "destinationPodNamespace"),
+	return Ev{"k": name, "sp": str(m, "sourcePodName"), "dp": str(m, "destinationPodName"), "sns": str(m, "sourcePodNamespace"), "dns": str(m, "destinationPodNamespace"),
 		"ftype": u64(m, "flowType"), "egress": u64(m, "egressNetworkPolicyRuleAction"), "ingress": u64(m, "ingressNetworkPolicyRuleAction"),
 		"start": u64(m, "flowStartSeconds"), "end": u64(m, "flowEndSeconds"), "endS": u64(m, "flowEndSecondsFromSourceNode"), "endD": u64(m, "flowEndSecondsFromDestinationNode"),
 		"com": vec(StatsElements), "frS": vec(srcStats), "frD": vec(dstStats), "tp": vec(tput), "tpS": vec(tputS), "tpD": vec(tputD),
-		"reason": u64(m, "flowEndReason"), "ready": f.Ready, "retries": f.Retries, "filled": f.Filled}
+		"reason": u64(m, "flowEndReason"), "ready": ready, "retries": 0, "filled": filled}
 }
+
+// Ev is vt.Ev with a chaining setter.
+type Ev = vt.Ev
+
+func withKV(e Ev, k string, v any) Ev { e[k] = v; return e }
 
 // Snapshot adds the projected state to ev.
 func (p *P) Snapshot(ev vt.Ev) vt.Ev {
